@@ -373,6 +373,19 @@ class Ctx:
     def impl(self, lines, tokio=False):
         return run_lines(IMPL_TOKIO_BIN if tokio else IMPL_BIN, lines)
 
+    def tokio_twin(self, lines, model_out, cls, norm=lambda x: x, what='tokio runtime differs from the model'):
+        """Run the same case lines through the tokio-runtime harness and compare with the model's answers."""
+        if not lines:
+            return []
+        out = run_lines(IMPL_TOKIO_BIN, lines)
+        self.evaluations += len(lines)
+        self.count('tokio-twin cases', len(lines))
+        for line, a, b in zip(lines, model_out, out):
+            if norm(a) != norm(b):
+                self.report({'line': line[:1500], 'runtime': 'tokio'}, b[:400], a[:400], cls=cls,
+                            failing_input=(b in ('PANIC', 'DIED', 'TIMEOUT')), what=what)
+        return out
+
     def finding_for(self, cls):
         for k in self.known:
             if k.get('class') == cls:
